@@ -22,7 +22,43 @@ class Ctx:
         pass
 
 
+STANDARD_ENV = {"HOME", "PATH", "USER", "LOGNAME", "TMPDIR", "TEMP", "TMP",
+                "LANG", "LC_ALL", "LC_CTYPE", "TZ", "PWD", "SHELL", "DISPLAY",
+                "PYTHONPATH", "MPLBACKEND", "USERNAME", "HOSTNAME",
+                "SOURCE_DATE_EPOCH"}
+
+
+def scan_env_switches():
+    """Names of environment variables read anywhere in the hydrodiy tree
+    under test (C kernels: getenv("X"); Python: os.environ / os.getenv)."""
+    import re
+    import hydrodiy
+    root = os.path.dirname(os.path.abspath(hydrodiy.__file__))
+    pats = [re.compile(r'getenv\(\s*["\']([A-Za-z_][A-Za-z0-9_]*)["\']'),
+            re.compile(r'environ(?:\.get\(|\[)\s*["\']([A-Za-z_][A-Za-z0-9_]*)'
+                       r'["\']')]
+    names = set()
+    for dp, dn, fns in os.walk(root):
+        if os.sep + "tests" in dp:
+            continue
+        for fn in fns:
+            if not fn.endswith((".py", ".c", ".h", ".pyx")) or \
+                    fn.startswith("c_hydrodiy_") and fn.endswith(".c"):
+                continue
+            try:
+                txt = open(os.path.join(dp, fn), errors="replace").read()
+            except OSError:
+                continue
+            for pat in pats:
+                names.update(pat.findall(txt))
+    return sorted(n for n in names if n not in STANDARD_ENV)
+
+
+ENV_SWITCHES = []
+
+
 def run_sessions(args, fd):
+    ENV_SWITCHES[:] = scan_env_switches()
     from hysim.core import ChoiceStream, EventLog, seed_for
     from hysim.engines import c05_session as S
     from hysim.engines.c18_session import make_plan, Args, rdigest
@@ -58,8 +94,20 @@ def run_sessions(args, fd):
         with cs.span("plan"):
             nsteps = cs.weighted("nsteps", [(80, 2), (160, 3), (300, 1)])
             plan = make_plan(cs, pool, entries, nsteps)
+        # switches the code reads from the process environment (debug traces,
+        # feature toggles): found by scanning the tree under test, all set in
+        # a share of the sessions
+        with cs.span("env"):
+            env_on = cs.flip("env_switches", 35)
+        for nm in ENV_SWITCHES:
+            if env_on:
+                os.environ[nm] = "1"
+            else:
+                os.environ.pop(nm, None)
         keep = args.get("keep")
         emit(fd, "BEGIN", idx, len(plan), len(pool.objs))
+        if ENV_SWITCHES:
+            emit(fd, "ENV", idx, env_on, ENV_SWITCHES)
         nok = nraise = 0
         kinds = []
         for c in plan:
